@@ -25,9 +25,17 @@ fn main() {
     match cmd {
         "fw-gen" => {
             let kind = arg_val(&args, "--kind").unwrap_or_else(|| "general".into());
+            // --only I: emit only case I; --dry: print the inputs without running the framework
+            let only: Option<u64> = arg_val(&args, "--only").and_then(|s| s.parse().ok());
+            let dry = args.iter().any(|a| a == "--dry");
             let mut p = util::Prng::new(seed ^ fxhash(&kind));
             for i in 0..cases {
                 let mut cp = p.fork();
+                if let Some(o) = only {
+                    if i != o {
+                        continue;
+                    }
+                }
                 let id = format!("{}-{}-{}", kind, seed, i);
                 let c = match kind.as_str() {
                     "general" => fw::gen_general(&mut cp, id),
@@ -39,8 +47,31 @@ fn main() {
                         }
                     },
                 };
-                emit_fw(&mut w, &c, &mut cp);
+                if dry {
+                    let _ = w.write_all(fw::inputs_only(&c).as_bytes());
+                } else {
+                    emit_fw(&mut w, &c, &mut cp);
+                    let _ = w.flush();
+                }
             }
+        }
+        "fw-exh" => {
+            // bounded-exhaustive family: --depth D, cases = number of indices from --start (stride --stride)
+            let depth: u32 = arg_val(&args, "--depth").and_then(|s| s.parse().ok()).unwrap_or(2);
+            let start: u64 = arg_val(&args, "--start").and_then(|s| s.parse().ok()).unwrap_or(0);
+            let stride: u64 = arg_val(&args, "--stride").and_then(|s| s.parse().ok()).unwrap_or(1);
+            let size = fwgen::exh_size(depth);
+            let mut p = util::Prng::new(seed);
+            let mut i = start;
+            let mut n = 0;
+            while i < size && n < cases {
+                if let Some(c) = fwgen::gen_exh(i, depth, format!("exh{}-{}", depth, i)) {
+                    emit_fw(&mut w, &c, &mut p);
+                }
+                i += stride;
+                n += 1;
+            }
+            eprintln!("exh depth={} size={} emitted={}", depth, size, n);
         }
         "fw-replay" => {
             let mut text = String::new();
